@@ -410,7 +410,8 @@ coalesceLoop:
 	for {
 		select {
 		case it2 := <-db.requestedIterations:
-			if it2.t == it.t {
+			if it2.t == it.t && it2.includeMemStore == it.includeMemStore {
+				// only iterations that read the same stores can share a scan
 				iterations = append(iterations, it2)
 			} else {
 				iterationsForOtherTables = append(iterationsForOtherTables, it2)
